@@ -683,6 +683,13 @@ def eval_fp(expr, env, check=True):
         return None
 
     def flag(kind, args, r):
+        if isinstance(r, numpy.integer) and all(isinstance(a, numpy.integer) for a in args):
+            # integer arithmetic: leave the regular regime on wrap-around
+            ia = [int(a) for a in args]
+            want = dict(add=lambda: ia[0] + ia[1], subtract=lambda: ia[0] - ia[1], multiply=lambda: ia[0] * ia[1],
+                        square=lambda: ia[0] * ia[0]).get(kind)
+            if want is not None and want() != int(r):
+                raise Undefined("integer overflow")
         if check:
             f = fp_flags(kind, args, r)
             if f:
